@@ -271,7 +271,7 @@ class _Srv(apps.RecServer):
             beh, win = beh
         # two window-fulls: the first fills the reader's buffer, the second
         # waits inside the channel
-        sess.flood = [win, win] if win else [5000] * 4
+        sess.flood = [win] * 4 if win else [5000] * 4
         if beh == 'sftp':
             ctx['ssessions'].pop()
             ctx['sftp_sessions'] = ctx.get('sftp_sessions', 0) + 1
